@@ -301,7 +301,12 @@ fn run_net(c: &Case) -> Result<Result<Outcome, String>, BedErr> {
                             out.extend_from_slice(&[0, 0, 0, 0]);
                         }
                         if kind & 4 != 0 {
-                            let bogus = Value::Pid { node: "rust@127.0.0.1".into(), id: 888_000 + idx as u32, serial: 0, creation: 0x0102_0304 };
+                            // a pid that never had a call: another process number, or (bit 5) the call's own number and serial
+                            // under another creation (an answer meant for an earlier incarnation of this node)
+                            let bogus = match (&reply_to, kind & 32 != 0) {
+                                (Value::Pid { node, id, serial, creation }, true) => Value::Pid { node: node.clone(), id: *id, serial: *serial, creation: creation.wrapping_add(if kind & 64 != 0 { 1 } else { u32::MAX }) },
+                                _ => Value::Pid { node: "rust@127.0.0.1".into(), id: 888_000 + idx as u32, serial: 0, creation: 0x0102_0304 },
+                            };
                             out.extend_from_slice(&send_frame(&bogus, &Value::atom("stray")));
                         }
                         if !silent {
